@@ -57,6 +57,7 @@ func (e *Engine) VerifyFunc(key string) (res *FnResult) {
 		return
 	}
 	c := e.newCtx(fn, ct)
+	activeVC = c.vc
 	res.Ctx = c
 	defer func() {
 		if r := recover(); r != nil {
@@ -106,6 +107,7 @@ func (e *Engine) VerifyFunc(key string) (res *FnResult) {
 	c.buildFrameSpec(fr, st)
 	c.buildGuards(fr, st)
 	c.setupOG(fr, st)
+	c.assertAll(fr)
 	c.runFunction(fr, st)
 	// postconditions
 	var retPCs []Term
@@ -209,6 +211,7 @@ func sortedKeys(m map[string]bool) []string {
 func (e *Engine) VerifyLemma(l *LemmaDef) *FnResult {
 	res := &FnResult{Key: l.Pkg + "::lemma:" + l.Name}
 	c := e.newCtx(nil, nil)
+	activeVC = c.vc
 	c.modeBV = l.Modes["bv"]
 	c.modeFP = l.Modes["fp"]
 	c.props = l.Props
